@@ -11,7 +11,7 @@ out,d=sys.argv[1],sys.argv[2]
 m=json.load(open(f'{out}/{d}/meta.json'))
 m['property']=d[:3]
 m['confirmed']="tools/verify_seed.sh: in a scratch worktree of /repo HEAD the demo exits 0 without the patch and non-zero with it; tools/baseline.py (the pinned suite, 464 stable tests) passes with the patch applied"
-m['origin']="independent sub-agent (round 2) given only the property text, the summaries of the round-1 changes to avoid, and a scratch worktree"
+m['origin']="independent sub-agent (later round) given only the property text, the summaries of the earlier rounds to avoid, and a scratch worktree"
 json.dump(m,open(f'/verif/seeded/{d}/meta.json','w'),indent=1)
 PY
   fi
